@@ -49,6 +49,9 @@ type c11Input struct {
 	// Typed: the labels a and b reach the engine as JSON values extracted by `| json` (a as a number, b as a string, c
 	// as a boolean), not as string attributes.
 	Typed bool `json:"typed,omitempty"`
+	// RangeOp (with Unwrap): the range function under the aggregation ("" = sum_over_time): max / avg / first over time do
+	// not commute with grouping, so grouping the streams before the range function runs gives other values.
+	RangeOp string `json:"range_op,omitempty"`
 }
 
 // c11Special: values that do not order or do not cancel. sum/avg propagate them by IEEE arithmetic whatever the
@@ -169,11 +172,21 @@ func c11Templates() []c11Template {
 		{name: "topk(1) by(a)(sum by(a,b))", build: func(x refmodel.Expr) refmodel.Expr {
 			return tk("topk", 1, g(false, "a"), va("sum", g(false, "a", "b"), x))
 		}},
+		// a sort over a grouped topk / bottomk orders the whole vector, not each group
+		{name: "sort_desc(topk(2) by(a))", instantOnly: true, build: func(x refmodel.Expr) refmodel.Expr { return va("sort_desc", nil, tk("topk", 2, g(false, "a"), x)) }},
+		{name: "sort(bottomk(2) by(b))", instantOnly: true, build: func(x refmodel.Expr) refmodel.Expr { return va("sort", nil, tk("bottomk", 2, g(false, "b"), x)) }},
+		{name: "sort_desc(topk(5) by(a,b))", instantOnly: true, build: func(x refmodel.Expr) refmodel.Expr { return va("sort_desc", nil, tk("topk", 5, g(false, "a", "b"), x)) }},
 		// one label set grouped by two different lists, one after the other
 		{name: "sum by(a)(topk(5) by(b))", build: func(x refmodel.Expr) refmodel.Expr { return va("sum", g(false, "a"), tk("topk", 5, g(false, "b"), x)) }},
-		{name: "count by(b)(bottomk(2) by(a))", build: func(x refmodel.Expr) refmodel.Expr { return va("count", g(false, "b"), tk("bottomk", 2, g(false, "a"), x)) }},
-		{name: "max by(a,b)(topk(2) by(a))", build: func(x refmodel.Expr) refmodel.Expr { return va("max", g(false, "a", "b"), tk("topk", 2, g(false, "a"), x)) }},
-		{name: "sum without(a)(bottomk(5) by(a))", build: func(x refmodel.Expr) refmodel.Expr { return va("sum", g(true, "a"), tk("bottomk", 5, g(false, "a"), x)) }},
+		{name: "count by(b)(bottomk(2) by(a))", build: func(x refmodel.Expr) refmodel.Expr {
+			return va("count", g(false, "b"), tk("bottomk", 2, g(false, "a"), x))
+		}},
+		{name: "max by(a,b)(topk(2) by(a))", build: func(x refmodel.Expr) refmodel.Expr {
+			return va("max", g(false, "a", "b"), tk("topk", 2, g(false, "a"), x))
+		}},
+		{name: "sum without(a)(bottomk(5) by(a))", build: func(x refmodel.Expr) refmodel.Expr {
+			return va("sum", g(true, "a"), tk("bottomk", 5, g(false, "a"), x))
+		}},
 		{name: "count(sum by(a,b))", build: func(x refmodel.Expr) refmodel.Expr { return va("count", nil, va("sum", g(false, "a", "b"), x)) }},
 		{name: "sum by()(count by(b))", build: func(x refmodel.Expr) refmodel.Expr { return va("sum", g(false), va("count", g(false, "b"), x)) }},
 	}
@@ -207,6 +220,9 @@ func c11Build(in c11Input) ([]mockq.Rec, refmodel.Expr, bool) {
 			}
 			labels = append(labels, mockq.KV{K: "v", V: v})
 		}
+		if in.RangeOp != "" {
+			n = 2 // two records per series, so that max / avg / first over one stream differ from those over a merged group
+		}
 		line := ""
 		if in.Typed {
 			// a: number, b: string, c: boolean; the line itself is dropped again by the pipeline
@@ -229,7 +245,13 @@ func c11Build(in c11Input) ([]mockq.Rec, refmodel.Expr, bool) {
 			if in.Stagger {
 				ts += int64(i) * 4 * sec
 			}
-			data = append(data, mockq.Rec{TS: ts, Line: line, Labels: labels})
+			recLabels := labels
+			if in.RangeOp != "" && j == 1 {
+				// the second record of a series carries another value (v is removed from the series' labels by unwrap)
+				recLabels = append([]mockq.KV(nil), labels[:len(labels)-1]...)
+				recLabels = append(recLabels, mockq.KV{K: "v", V: strconv.Itoa(10 * (i + 1))})
+			}
+			data = append(data, mockq.Rec{TS: ts, Line: line, Labels: recLabels})
 		}
 	}
 	var stages []refmodel.Stage
@@ -239,6 +261,9 @@ func c11Build(in c11Input) ([]mockq.Rec, refmodel.Expr, bool) {
 	var x refmodel.Expr = &refmodel.RangeAgg{Op: "count_over_time", RangeNS: 10 * sec, Stages: stages}
 	if in.Unwrap {
 		x = &refmodel.RangeAgg{Op: "sum_over_time", Unwrap: "v", RangeNS: 10 * sec, Stages: stages}
+		if in.RangeOp != "" {
+			x = &refmodel.RangeAgg{Op: in.RangeOp, Unwrap: "v", RangeNS: 10 * sec, Stages: stages}
+		}
 	}
 	if in.Inner != "" {
 		x = &refmodel.RangeAgg{Op: "max_over_time", Unwrap: "v", RangeNS: 10 * sec, Grouping: c11Inner[in.Inner]}
@@ -320,6 +345,11 @@ func c11Run(r *vkit.Run) {
 					c11Check(r, c11Input{Series: sub, Unwrap: unwrap, Query: t.name, Range: rg, Bound: bound}, nil)
 					if rg && len(sub) >= 2 {
 						c11Check(r, c11Input{Series: sub, Unwrap: unwrap, Query: t.name, Range: true, Bound: 0, Stagger: true}, nil)
+					}
+					if unwrap && len(sub) >= 2 && !strings.Contains(t.name, "topk") && !strings.Contains(t.name, "sort") && !strings.Contains(t.name, ")(") {
+						for _, ro := range []string{"max_over_time", "avg_over_time", "first_over_time"} {
+							c11Check(r, c11Input{Series: sub, Unwrap: true, Query: t.name, Range: rg, Bound: 0, RangeOp: ro}, nil)
+						}
 					}
 					if !rg && !strings.Contains(t.name, "(") || strings.HasPrefix(t.name, "topk(2)") {
 						c11Check(r, c11Input{Series: sub, Unwrap: unwrap, Query: t.name, Range: rg, Bound: 0, Typed: true}, nil)
